@@ -136,6 +136,25 @@ func init() {
 		if err := emit("memdbGetOrCreateTSIInnerCalls", FindFunc(mdf, "indexDatabase", "getOrCreateTimeSeriesIndex"), "indexDatabase.getOrCreateTimeSeriesIndex"); err != nil {
 			return "", err
 		}
+		// the index worker: where PrepareFlush runs (row-handler goroutine vs background flush goroutine)
+		if err := emit("memdbHandleCalls", FindFunc(mdf, "indexDatabase", "handle"), "indexDatabase.handle"); err != nil {
+			return "", err
+		}
+		if err := emit("memdbHandleFlushCalls", FindFunc(mdf, "indexDatabase", "handleFlush"), "indexDatabase.handleFlush"); err != nil {
+			return "", err
+		}
+		{
+			n := 0
+			if fd := FindFunc(mdf, "indexDatabase", "handle"); fd != nil {
+				ast.Inspect(fd.Body, func(x ast.Node) bool {
+					if g, ok := x.(*ast.GoStmt); ok && exprName(g.Call.Fun) == "idb.handleFlush" {
+						n++
+					}
+					return true
+				})
+			}
+			fmt.Fprintf(&sb, "\ndef memdbHandleGoFlush : Nat := %d\n", n)
+		}
 		// ---- index/v1/index_kv_merger.go: the dictionary compaction merger
 		_, mgf, err := ParseFile(repo, "index/v1/index_kv_merger.go")
 		if err != nil {
